@@ -11,11 +11,13 @@ func init() {
 		quick: tier{jobs: []job{
 			{name: "std-chunking", run: "^TestProp$", shards: 16, checks: 100, timeout: 25 * time.Minute},
 			{name: "all-splits", run: "^TestAllSplits$", shards: 16, checks: 1, timeout: 25 * time.Minute},
+			{name: "history-ring", run: "^TestPropRing$", shards: 16, checks: 12, timeout: 25 * time.Minute},
 			{name: "generated-programs", pkg: "e2", run: "^TestPropC05Gen$", shards: 8, checks: 2, timeout: 30 * time.Minute},
 		}},
 		thorough: tier{jobs: []job{
 			{name: "std-chunking", run: "^TestProp$", shards: 16, checks: 8000, timeout: 120 * time.Minute},
 			{name: "all-splits", run: "^TestAllSplits$", shards: 16, checks: 1, timeout: 120 * time.Minute},
+			{name: "history-ring", run: "^TestPropRing$", shards: 16, checks: 1500, timeout: 120 * time.Minute},
 			{name: "generated-programs", pkg: "e2", run: "^TestPropC05Gen$", shards: 16, checks: 60, timeout: 180 * time.Minute},
 		}},
 	})
